@@ -122,9 +122,10 @@ class Units(list):
 # property -> units per tier, judgement kinds routed to it, crash routing, extra filter
 PROPS = {
     'C01': {'level': 'model_checking',
-            'units': {'quick': u('S1', ALL) + u('SR', ['V_T', 'V_N', 'F_N', 'M_NA']) + u('S1sim', ['V_T', 'M_NA']),
+            'units': {'quick': u('S1', ALL) + u('SR', ['V_T', 'V_N', 'F_N', 'M_NA']) + u('S1sim', ['V_T', 'M_NA'])
+                               + u('S1', ['V_N', 'M_T'], ('AE',), ('cxx20',)),
                       'thorough': u('S1', ALL, ('AE', 'NP')) + u('S1', ALL, ('AE',), ('ndebug',)) + u('SR', ALL, ('AE', 'PR'))
-                                  + u('S1sim', ALL, ('AE',))},
+                                  + u('S1sim', ALL, ('AE',)) + u('S1', ALL, ('AE',), ('cxx20',))},
             'kinds': K_SEQ | {'PATHS_DISAGREE'}, 'crash': crash_any, 'filter': None,
             'technique': 'TLA+ model (Cntgs.tla) explored by TLC; transition-cover histories replayed on the real '
                          'templates; every step of the recorded trace judged by Trace.tla (sequence semantics)'},
@@ -136,10 +137,10 @@ PROPS = {
                          'redzones; observed addresses judged against block bounds by Trace.tla/Layout.tla'},
     'C03': {'level': 'model_checking',
             'units': {'quick': Units(u('S1', ALIGNED) + u('SF', ['V_TA', 'M_NA', 'VV_T'])
-                                     + u('S1', ['V_TA', 'M_NA'], ('AE',), ('ndebug',)), ul('quick')),
+                                     + u('S1', ['V_TA', 'M_NA'], ('AE',), ('ndebug',)) + u('S1', ['M_NA'], ('AE',), ('ndebug20',)), ul('quick')),
                       'thorough': Units(u('S1', ALIGNED, ('AE', 'NP')) + u('SF', ['V_TA', 'M_NA', 'VV_T'])
                                         + u('S1', ALIGNED, ('AE',), ('ndebug',)) + u('S2', ALIGNED, ('AE',), ('ndebug',))
-                                        + u('S3', ALIGNED, ('AE',), ('ndebug',)), ul('thorough'))},
+                                        + u('S3', ALIGNED, ('AE',), ('ndebug',)) + u('S1', ALIGNED, ('AE',), ('ndebug20', 'cxx20')), ul('thorough'))},
             'kinds': K_ALIGN, 'crash': crash_assert, 'filter': None,
             'technique': 'observed numeric addresses of AlignAs objects judged by Layout!ElemsAligned in every '
                          'recorded state; blocks based at odd multiples of the storage alignment; includes the g++ -O2 -DNDEBUG '
@@ -157,32 +158,37 @@ PROPS = {
             'technique': 'observed offsets compared with the greedy layout of Layout.tla; footprint judged against '
                          'the observed footprint of a fresh vector'},
     'C06': {'level': 'model_checking',
-            'units': {'quick': u('S1', NONTRIV + NONTRIV_A) + u('S2', NONTRIV, ('NP', 'PR')),
+            'units': {'quick': u('S1', NONTRIV + NONTRIV_A) + u('S2', NONTRIV, ('NP', 'PR')) + u('S1', ['V_N'], ('AE',), ('cxx20',)),
                       'thorough': u('S1', NONTRIV + NONTRIV_A, ('AE', 'NP')) + u('S2', NONTRIV + NONTRIV_A, ('NP', 'AE', 'PR'))
-                                  + u('SR', NONTRIV, ('AE', 'PR')) + u('S1sim', NONTRIV, ('AE',)) + u('S2sim', NONTRIV, ('NP',))},
+                                  + u('SR', NONTRIV, ('AE', 'PR')) + u('S1sim', NONTRIV, ('AE',)) + u('S2sim', NONTRIV, ('NP',))
+                                  + u('S1', NONTRIV + NONTRIV_A, ('AE',), ('cxx20',)) + u('S2', NONTRIV, ('NP',), ('cxx20',))},
             'kinds': K_LIFE | {'VALUES'}, 'crash': crash_any, 'filter': None,
             'technique': 'constructor/assignment/destructor events of the instrumented value type inside every '
                          'operation folded by the lifetime sub-machine of Trace.tla; live objects compared with the '
                          'slots of the held values after every step'},
     'C07': {'level': 'model_checking',
-            'units': {'quick': u('S1', ALL) + u('S2', ALL, ('NP',)) + u('S2', ['F_N', 'V_N'], ('AE', 'PR')),
+            'units': {'quick': u('S1', ALL) + u('S2', ALL, ('NP',)) + u('S2', ['F_N', 'V_N'], ('AE', 'PR'))
+                               + u('S2', ['F_N', 'V_T'], ('K100', 'K010', 'K001')),     # single-trait allocators (shared with C08)
                       'thorough': u('S1', ALL, ('AE', 'NP')) + u('S2', ALL, ('NP', 'AE', 'PR')) + u('SR', ALL, ('AE', 'PR'))
-                                  + u('S2sim', ALL, ('NP', 'PR'))},
+                                  + u('S2sim', ALL, ('NP', 'PR'))
+                                  + u('S2', ['F_N', 'V_T'], ('K000', 'K001', 'K010', 'K011', 'K100', 'K101', 'K110', 'K111'))},
             'kinds': K_LEDGER, 'crash': never, 'filter': None,
             'technique': 'allocate/deallocate events of the ledger allocator folded by the ledger sub-machine of '
                          'Trace.tla (size, equal allocator, exactly once); empty ledger required at the end of every '
                          'history'},
     'C08': {'level': 'model_checking',
             'units': {'quick': u('S2', ['F_N', 'V_T'], ('NP', 'PR', 'K100', 'K010', 'K001', 'AE')),
-                      'thorough': u('S2', ['F_T', 'F_N', 'V_T', 'V_N', 'P_TA', 'M_NA'],
-                                    ('AE', 'K000', 'K001', 'K010', 'K011', 'K100', 'K101', 'K110', 'K111', 'PR'))},
+                      'thorough': u('S2', ['F_N', 'V_T'], ('AE', 'K000', 'K001', 'K010', 'K011', 'K100', 'K101', 'K110', 'K111', 'PR'))
+                                  + u('S2', ['F_T', 'V_N', 'P_TA', 'M_NA'], ('AE', 'NP', 'PR', 'K100', 'K010', 'K001'))},
             'kinds': K_ALLOC, 'crash': crash_any, 'filter': None,
             'technique': 'two-vector TLA+ model with the std::allocator_traits propagation rules (Cntgs.tla, '
                          'AllocatorPropagation) explored by TLC per trait combination; get_allocator() and the allocator '
                          'instance of every block (at use and at free) judged by Trace.tla'},
     'C09': {'level': 'model_checking',
-            'units': {'quick': u('S2', ALL, ('NP',)) + u('S2', ['F_N', 'V_N'], ('AE', 'PR')) + u('S2sim', ['V_N', 'F_T'], ('NP',)),
-                      'thorough': u('S2', ALL, ('NP', 'AE', 'PR')) + u('SR', ALL, ('AE', 'PR')) + u('S2sim', ALL, ('NP', 'PR'))},
+            'units': {'quick': u('S2', ALL, ('NP',)) + u('S2', ['F_N', 'V_N'], ('AE', 'PR')) + u('S2sim', ['V_N', 'F_T'], ('NP',))
+                               + u('S2', ['V_N'], ('NP',), ('cxx20',)),
+                      'thorough': u('S2', ALL, ('NP', 'AE', 'PR')) + u('SR', ALL, ('AE', 'PR')) + u('S2sim', ALL, ('NP', 'PR'))
+                                  + u('S2', ALL, ('NP',), ('cxx20',))},
             'kinds': K_VALUE, 'crash': crash_any, 'filter': None,
             'technique': 'two-vector TLA+ model (copy/move construction and assignment, swap, self forms, moved-from '
                          'targets, all source/target shapes up to capacity 2) explored by TLC; the projection of BOTH '
@@ -193,8 +199,8 @@ PROPS = {
             'technique': 'every Reserve step of the TLC-generated histories (no-op and growing, any fill level) '
                          'judged by Trace.tla: contents, capacity, block stability when n <= capacity'},
     'C11': {'level': 'model_checking',
-            'units': {'quick': u('S4', ALL) + u('S4x', ['F_T', 'F_N', 'V_T', 'P_N', 'F_TA']),
-                      'thorough': u('S4', ALL, ('AE', 'NP')) + u('S4x', ALL)},
+            'units': {'quick': u('S4', ALL) + u('S4x', ['F_T', 'F_N', 'V_T', 'P_N', 'F_TA']) + u('S4', ['F_T', 'V_N'], ('AE',), ('cxx20',)),
+                      'thorough': u('S4', ALL) + u('S4x', ALL) + u('S4', ['F_T', 'F_N', 'V_T', 'V_N', 'P_TA'], ('AE',), ('cxx20',))},
             'kinds': K_SEQ | K_LIFE | {'PATHS_DISAGREE', 'ITERATOR_ARITHMETIC', 'ALLOCATOR_USED', 'BYSTANDER_CHANGED'},
             'crash': crash_any, 'filter': None,
             'technique': 'TLA+ model of references/iterators as proxies (assignment, move assignment, swap, iter_swap, '
@@ -203,8 +209,8 @@ PROPS = {
                          'complete iterator arithmetic/comparison table is compared with integer arithmetic'},
     'C12': {'level': 'model_checking',
             'units': {'quick': u('S3', ['F_T', 'F_N', 'V_T', 'V_N', 'V_TA', 'M_NA', 'P_TA'], ('NP',))
-                               + u('S3', ['F_N', 'V_N'], ('AE', 'PR')),
-                      'thorough': u('S3', ALL, ('NP', 'AE', 'PR'))},
+                               + u('S3', ['F_N', 'V_N'], ('AE', 'PR')) + u('S3', ['V_N'], ('NP',), ('cxx20',)),
+                      'thorough': u('S3', ALL, ('NP', 'AE', 'PR')) + u('S3', ALL, ('NP',), ('cxx20',))},
             'kinds': K_VALUE | K_LIFE | K_ALLOC | K_LEDGER | K_ORDER | K_MEM | K_ALIGN | K_TIGHT | {'PATHS_DISAGREE'},
             'crash': crash_any, 'filter': None,
             'technique': 'TLA+ model of stand-alone elements (construction from const / rvalue references, copy, move, '
@@ -213,14 +219,14 @@ PROPS = {
                          'both elements (values, own block, allocator, layout, live objects) judged by Trace.tla after '
                          'every step'},
     'C13': {'level': 'model_checking',
-            'units': {'quick': u('S5', S5Q) + u('S5e', ['F_T', 'B_T', 'M_T', 'V_N']), 'thorough': u('S5', ALL + ['B_T', 'B_TA', 'VB_T'], ('AE', 'NP')) + u('S5e', ALL + ['B_T', 'B_TA', 'VB_T', 'BB_T', 'SB_T'], ('AE', 'NP'))},
+            'units': {'quick': u('S5', S5Q) + u('S5e', ['F_T', 'B_T', 'M_T', 'V_N']) + u('S5', ['F_T', 'V_N'], ('AE',), ('cxx20',)), 'thorough': u('S5', ALL + ['B_T', 'B_TA', 'VB_T'], ('AE', 'NP')) + u('S5e', ALL + ['B_T', 'B_TA', 'VB_T', 'BB_T', 'SB_T'], ('AE', 'NP'))},
             'kinds': {'EQUALITY', 'VECTOR_EQUALITY'}, 'crash': crash_any, 'filter': None,
             'technique': 'TLA+ model of two vectors over a three-valued domain (every pair of contents: equal, one field '
                          'different, strict prefix, empty, different spare capacity) explored by TLC; complete truth tables '
                          'of == and != for all operand kinds recorded under rotating junk patterns and compared with '
                          'content equality as DEFINED in the spec (EqElem/EqElems)'},
     'C14': {'level': 'model_checking',
-            'units': {'quick': u('S5', S5Q), 'thorough': u('S5', ALL + ['B_T', 'B_TA', 'VB_T'], ('AE', 'NP'))},
+            'units': {'quick': u('S5', S5Q) + u('S5', ['F_T', 'V_N'], ('AE',), ('cxx20',)), 'thorough': u('S5', ALL + ['B_T', 'B_TA', 'VB_T'], ('AE', 'NP')) + u('S5', ALL, ('AE',), ('cxx20',))},
             'kinds': {'RELATIONAL_INCONSISTENT', 'VECTOR_RELATIONAL_INCONSISTENT', 'COMPARE_DEPENDS_ON_OPERAND_KIND',
                       'NOT_A_STRICT_ORDER', 'COMPARE_DEPENDS_ON_NON_CONTENT', 'VECTOR_ORDER'},
             'crash': crash_any, 'filter': None,
@@ -247,8 +253,8 @@ PROPS = {
                          'states compared by Trace.tla (JudgeStability/JudgeTransfer)'},
     'C17': {'level': 'fault_enumeration',
             'units': {'quick': u('S7', ['F_T', 'F_N', 'V_T', 'V_N'], ('NP',)) + u('S7', ['F_N', 'V_TA'], ('PR',))
-                               + u('S7e', ['F_N', 'V_N', 'V_TA'], ('NP',)),
-                      'thorough': u('S7', ALL, ('NP', 'PR', 'AE')) + u('S7e', ALL, ('NP', 'PR'))},
+                               + u('S7e', ['F_N', 'V_N', 'V_TA'], ('NP',)) + u('S7', ['V_N'], ('NP',), ('cxx20',)),
+                      'thorough': u('S7', ALL, ('NP', 'PR', 'AE')) + u('S7e', ALL, ('NP', 'PR')) + u('S7', NONTRIV, ('NP',), ('cxx20',))},
             'kinds': ANY, 'crash': crash_any, 'filter': None,
             'technique': 'TLA+ model with allocation failure (Cntgs.tla ThrowEff): for every allocating operation in '
                          'every reachable state of the bounded model TLC emits the operation with its 1st..k-th allocation '
@@ -256,7 +262,7 @@ PROPS = {
                          'operand, ledger, object lifetimes, a follow-up operation on the operand, destruction of '
                          'everything) is judged by Trace.tla'},
     'C18': {'level': 'model_checking',
-            'units': {'quick': u('S1', ALL) + u('S5e', ALL + ['B_T', 'SB_T']), 'thorough': u('S1', ALL, ('AE', 'NP')) + u('S5e', ALL + ['B_T', 'B_TA', 'VB_T', 'BB_T', 'SB_T'], ('AE', 'NP', 'PR'))},
+            'units': {'quick': u('S1', ALL) + u('S5e', ALL + ['B_T', 'SB_T']), 'thorough': u('S1', ALL, ('AE', 'NP')) + u('S5e', ALL + ['B_T', 'B_TA', 'VB_T', 'BB_T', 'SB_T'], ('AE', 'NP'))},
             'kinds': ANY, 'crash': crash_any, 'filter': on_empty,
             'technique': 'all model transitions from/to states with no element (fresh, capacity 0, '
                          'default-constructed, emptied) replayed under rotating junk patterns and judged by Trace.tla; '
@@ -343,7 +349,9 @@ SRC_TYPES = {'id': ('std::uint32_t', 'std::uint32_t'), 'widen': ('std::uint16_t'
              'str': ('std::string', 'std::string')}
 FORM_NAMES = {1: 'std::vector lvalue', 2: 'std::vector rvalue', 3: 'std::array lvalue', 4: 'C array lvalue',
               5: 'std::list lvalue', 6: 'std::list rvalue', 7: 'generated single-pass range', 8: 'raw pointer',
-              9: 'std::vector iterator', 10: 'std::list iterator', 11: 'std::move_iterator', 12: 'std::reverse_iterator over std::vector'}
+              9: 'std::vector iterator', 10: 'std::list iterator', 11: 'std::move_iterator', 12: 'std::reverse_iterator over std::vector',
+              13: 'non-owning contiguous view (std::span) lvalue', 14: 'non-owning contiguous view (std::span) rvalue',
+              15: 'non-owning view over a std::list (std::ranges::subrange) rvalue'}
 
 
 def src_cases():
@@ -370,10 +378,14 @@ def src_cases():
         return r
 
 
-def build_sources(conv):
+C15_BUILDS = ('asan', 'cxx20')   # the C++17 and the C++20 code paths of detail/memory.hpp (std::ranges::uninitialized_*)
+
+
+def build_sources(cb):
+    conv, build = cb
     s, t = SRC_TYPES[conv]
     src = '#include "sources.hpp"\nint main(int c, char** v) { return vsrc::sources_main<%s, %s>("%s", c, v); }\n' % (s, t, conv)
-    key = vlib.sha('sources', src, vlib.repo_hash(), open(os.path.join(vlib.HARNESS, 'sources.hpp')).read())
+    key = vlib.sha('sources', src, build, vlib.repo_hash(), open(os.path.join(vlib.HARNESS, 'sources.hpp')).read())
     d = os.path.join(vlib.BUILD, 'bin', key)
     exe = os.path.join(d, 'sources')
     with vlib.Lock(d + '.lock'):
@@ -381,7 +393,7 @@ def build_sources(conv):
             return exe, ''
         os.makedirs(d, exist_ok=True)
         open(os.path.join(d, 'tu.cpp'), 'w').write(src)
-        r = subprocess.run(vlib.BUILDS['asan'] + ['-I', vlib.HARNESS, '-I', os.path.join(vlib.REPO, 'src'),
+        r = subprocess.run(vlib.BUILDS[build] + ['-I', vlib.HARNESS, '-I', os.path.join(vlib.REPO, 'src'),
                                                  os.path.join(d, 'tu.cpp'), '-o', exe], capture_output=True, text=True)
         if r.returncode != 0:
             return None, r.stderr[-6000:]
@@ -393,20 +405,21 @@ def run_c15(tier, seed):
     gen = src_cases()
     cases = gen['cases']
     pool = ThreadPoolExecutor(12)
-    convs = sorted(SRC_TYPES)
+    convs = [(c, b) for c in sorted(SRC_TYPES) for b in C15_BUILDS]
     exes = dict(zip(convs, pool.map(build_sources, convs)))
     verdicts, infra, ran, states = [], [], 0, gen['states']
 
-    def one(conv):
-        exe, diag = exes[conv]
+    def one(cb):
+        conv, build = cb
+        exe, diag = exes[cb]
         mine = [c for c in cases if c['c'] == conv]
         if exe is None:
-            return conv, None, diag, len(mine), 0
+            return cb, None, diag, len(mine), 0
         d = os.path.join(vlib.BUILD, 'srcruns', vlib.sha(exe, json.dumps(mine), vlib.spec_hash(['Sources.tla'])))
         res = os.path.join(d, 'result.json')
         with vlib.Lock(d + '.lock'):
             if os.path.exists(res):
-                return (conv,) + tuple(json.load(open(res)))
+                return (cb,) + tuple(json.load(open(res)))
             os.makedirs(d, exist_ok=True)
             with open(os.path.join(d, 'plan.txt'), 'w') as f:
                 for c in mine:
@@ -426,17 +439,17 @@ def run_c15(tier, seed):
             vs = [json.loads(m.group(1).replace('\\"', '"')) for m in (vlib.VERDICT_RE.match(x) for x in out.splitlines()) if m]
             st, _ = vlib.tlc_stats(out)
             json.dump([vs, '', len(mine), st], open(res, 'w'))
-            return conv, vs, '', len(mine), st
+            return cb, vs, '', len(mine), st
     results = list(pool.map(one, convs))
     nviol = 0
     os.makedirs(os.path.join(OUT, 'replay'), exist_ok=True)
-    for conv, vs, diag, n, st in results:
+    for (conv, build), vs, diag, n, st in results:
         states += st
         if vs is None:
-            path = os.path.join(OUT, 'replay', 'C15_%s_build.json' % conv)
-            json.dump({'property': 'C15', 'conv': conv, 'types': SRC_TYPES[conv], 'compiler_diagnostics': diag}, open(path, 'w'), indent=1)
-            infra.append('the C15 driver for %s -> %s does not compile (diagnostics: %s); availability is judged by C20'
-                         % (SRC_TYPES[conv][0], SRC_TYPES[conv][1], path))
+            path = os.path.join(OUT, 'replay', 'C15_%s_%s_build.json' % (conv, build))
+            json.dump({'property': 'C15', 'conv': conv, 'build': build, 'types': SRC_TYPES[conv], 'compiler_diagnostics': diag}, open(path, 'w'), indent=1)
+            infra.append('the C15 driver (%s) for %s -> %s does not compile (diagnostics: %s); availability is judged by C20'
+                         % (build, SRC_TYPES[conv][0], SRC_TYPES[conv][1], path))
             continue
         ran += n
         seen = set()
@@ -444,13 +457,13 @@ def run_c15(tier, seed):
             if 'DRIVER_PRECONDITION' in v['kinds']:
                 infra.append('case outside the applicable set: %s' % v['case'])
                 continue
-            sig = (v['case']['conv'], v['case']['form'], v['case']['varying'], tuple(sorted(v['kinds'])))
+            sig = (v['case']['conv'], build, v['case']['form'], v['case']['varying'], tuple(sorted(v['kinds'])))
             nviol += 1
             if sig in seen:
                 continue
             seen.add(sig)
-            path = os.path.join(OUT, 'replay', 'C15_%s_f%d_v%d_n%d.json' % (conv, v['case']['form'], v['case']['varying'], v['case']['n']))
-            json.dump({'property': 'C15', 'case': v['case'], 'source_form': FORM_NAMES[v['case']['form']],
+            path = os.path.join(OUT, 'replay', 'C15_%s_%s_f%d_v%d_n%d.json' % (conv, build, v['case']['form'], v['case']['varying'], v['case']['n']))
+            json.dump({'property': 'C15', 'build': build, 'case': v['case'], 'source_form': FORM_NAMES[v['case']['form']],
                        'types': SRC_TYPES[conv], 'kinds': v['kinds']}, open(path, 'w'), indent=1)
             print('VIOLATION property=C15 replay=%s' % path)
             print('   %s -> %s from %s, %s, n=%d: %s' % (SRC_TYPES[conv][0], SRC_TYPES[conv][1], FORM_NAMES[v['case']['form']],
@@ -462,7 +475,8 @@ def run_c15(tier, seed):
                        'explanation': 'every applicable (parameter kind, source form, type pair, length 0..3) of spec/Sources.tla '
                                       'executed on the real templates; stored values, source post-state and per-item copy/move '
                                       'counts judged by the same module'},
-          'assumptions': ['type pairs and source forms are those of spec/Sources.tla / harness/sources.hpp', 'ASan build, std::allocator'],
+          'assumptions': ['type pairs and source forms are those of spec/Sources.tla / harness/sources.hpp',
+                          'clang++ -std=c++17 and g++ -std=c++20 ASan/UBSan builds (the C++20 build takes the std::ranges paths of detail/memory.hpp), std::allocator'],
           'wall_s': round(time.time() - t0, 1), 'violations': nviol}
     os.makedirs(os.path.join(VERIF, 'evidence'), exist_ok=True)
     json.dump(ev, open(os.path.join(VERIF, 'evidence', 'C15.json'), 'w'), indent=1)
